@@ -5380,6 +5380,9 @@ impl<'a, 'graph> Builder<'a, 'graph> {
     }
     self.state = PendingState::default();
     self.fill_pass_mode = FillPassMode::CacheBusting;
+    // the first pass may have ended inside the dynamic branches
+    self.in_dynamic_branch = self.was_dynamic_root;
+    self.resolved_roots.clear();
 
     // boxed due to async recursion
     async move { self.build(roots, imports).await }.boxed_local()
